@@ -23,8 +23,11 @@ def record(ctx, packages, timeout=1500, runs=1):
     e["GOFLAGS"] = "-mod=readonly"
     e["QILOOP_VERIF_TRACE"] = os.path.join(td, "t")
     e["TMPDIR"] = tmpd
-    p = subprocess.run(["go", "test", "-tags", "verif", "-vet=off", "-count=%d" % runs, "-p", "2", "-timeout", "20m"] + packages,
-                       cwd=wt, env=e, stdout=subprocess.PIPE, stderr=subprocess.STDOUT, text=True, timeout=timeout)
+    try:
+        p = subprocess.run(["go", "test", "-tags", "verif", "-vet=off", "-count=%d" % runs, "-p", "2", "-timeout", "12m"] + packages,
+                           cwd=wt, env=e, stdout=subprocess.PIPE, stderr=subprocess.STDOUT, text=True, timeout=timeout)
+    except subprocess.TimeoutExpired:
+        return None, ["(timeout)"], ""
     failed = [l for l in p.stdout.splitlines() if l.startswith(("--- FAIL", "FAIL", "panic:"))]
     files = sorted(glob.glob(os.path.join(td, "t.*")))
     if not files:
@@ -79,6 +82,12 @@ def endpoint_traces(files, max_handlers):
 
 def validate_endpoints(ctx, packages, klass="endpoint/corpus-trace-rejected", max_handlers=400, selftest=True, runs=1):
     files, failed, stdout = record(ctx, packages, runs=runs)
+    if files is None or any("panic: test timed out" in l for l in failed):
+        # the repository's own tests finish in well under a minute; with the same hooks they did not finish in
+        # 12 minutes on this tree: a hang of the code under test (they hang without the hooks as well)
+        ctx.failure("endpoint/corpus-tests-do-not-terminate", "the repository's own tests (./bus/... ./examples/...) did not "
+                    "terminate within 12 minutes when run with the hooks on", {"packages": packages})
+        return False
     traces, skipped = endpoint_traces(files, max_handlers)
     if not traces:
         raise Infra("no endpoint trace in the corpus")
